@@ -1,0 +1,13 @@
+//go:build !verif
+
+package nsqd
+
+// argument helpers for the verif hooks; without the build tag they cost nothing
+
+func vc(c *Channel) string            { return "" }
+func vt(t *Topic) string              { return "" }
+func vcs(cs []*Channel) []string      { return nil }
+func vid(id MessageID) string         { return "" }
+func verr(err error) string           { return "" }
+func vparam(p [][]byte, i int) string { return "" }
+func vids(ms []*Message) []string     { return nil }
